@@ -272,6 +272,12 @@ def iterate_chunks(shape, chunk_shape=None, n_max=None):
             raise ValueError('chunk_shape should fit within shape')
 
     ndim = len(chunk_shape)
+
+    # A zero-dimensional array has a single (empty) chunk
+    if ndim == 0:
+        yield ()
+        return
+
     start_index = [0] * ndim
 
     shape = list(shape)
